@@ -162,6 +162,9 @@ def gen_distances(rng, form, d0, kind):
         d[rng.integers(0, n)] = d0 * 10.0 ** rng.uniform(-3, -0.01)   # force one
         if rng.random() < 0.5:
             d[rng.integers(0, n)] = d0 * (1 + 10.0 ** rng.uniform(-6, 0))
+    if with_small and rng.random() < 0.3:
+        # the smallest distance there is: a user on top of the base station
+        d[rng.integers(0, n)] = 0.0
     if form == "pyfloat":
         return float(d[0])
     if form == "npscalar":
@@ -198,6 +201,10 @@ def check_model(ctx, kind, m, twin_raise, p, handle, D, kw, hist, form):
         kwi = dict(kw)
         if walls_flat is not None:
             kwi["num_walls"] = int(walls_flat[i])
+        if di <= 0.0:            # too small for every model, by definition
+            want[i] = 0.0
+            small[i] = True
+            continue
         try:
             want[i] = float(twin_raise.calc_path_loss_dB(float(di), **kwi))
         except RuntimeError:
